@@ -93,6 +93,43 @@ impl QGen {
         }
         s
     }
+    /// a constraint of the kinds the Lean model covers
+    pub fn constraint_modelled(&mut self) -> String {
+        let body = match self.rng.below(10) {
+            0 => format!("ID {}", self.q()),
+            1 => match self.rng.below(4) { 0 => format!("TEXT AS NOCASE {}", self.q()), 1 => format!("TEXT AS REGEX \"{}\"", self.rng.pick(&["a+b", "[A-Z]\\\\w+", "x|y", "a("])), 2 => format!("TEXT {}", self.var()), _ => format!("TEXT {}", self.q()) },
+            2 => format!("DATASET{} {}", self.qual(), if self.rng.chance(50) { self.q() } else { self.var() }),
+            3 | 4 => format!("DATA{} {} {} {}", self.qual(), self.q(), self.q(), self.opval()),
+            5 => format!("DATA{} {}", self.qual(), self.q() + " " + &self.q()),
+            6 => format!("DATA{} {}", self.qual(), self.var()),
+            7 => format!("DATA{} {} {}", self.qual(), self.var(), self.opval()),
+            8 => match self.rng.below(3) { 0 => "SUBSTORE NONE".to_string(), 1 => format!("SUBSTORE {}", self.var()), _ => format!("SUBSTORE {}", self.q()) },
+            _ => format!("ID {}", self.var()),
+        };
+        format!("{};", body)
+    }
+    /// a SELECT query within what the Lean model covers, with varied white space
+    pub fn select_modelled(&mut self, level: usize) -> String {
+        let ws = |g: &mut QGen| (*g.rng.pick(&[" ", " ", " ", "\n", "\t", "  ", "\n\t", "\r\n"])).to_string();
+        let mut s = String::from("SELECT");
+        s += &ws(self);
+        if self.rng.chance(20) { s += "OPTIONAL"; s += &ws(self); }
+        let ty = *self.rng.pick(TYPES);
+        s += &if self.rng.chance(15) { ty.to_lowercase() } else { ty.to_string() };
+        if self.rng.chance(70) { s += &ws(self); s += &self.var(); if self.rng.chance(5) { s += ";"; } }
+        let nc = self.rng.below(4);
+        if nc > 0 || self.rng.chance(10) {
+            s += &ws(self); s += "WHERE";
+            for _ in 0..nc { s += &ws(self); s += &self.constraint_modelled(); }
+        }
+        if level < 3 && self.rng.chance(40) {
+            let n = self.rng.below(3);
+            let subs: Vec<String> = (0..n).map(|_| self.select_modelled(level + 1)).collect();
+            let (a, b, c) = (ws(self), ws(self), ws(self));
+            s += &format!("{}{{{}{}{}}}", if self.rng.chance(10) { String::new() } else { a }, b, subs.join(&format!("{}|{}", ws(self), if self.rng.chance(10) { String::new() } else { ws(self) })), c);
+        }
+        s
+    }
     pub fn query(&mut self) -> String {
         match self.rng.below(10) {
             0 => { let n = self.rng.below(4); let a: Vec<String> = (0..n).map(|_| self.assignment()).collect(); format!("ADD ANNOTATION {} {}{}{}", self.var(), if n > 0 { "WITH " } else { "" }, a.join(" "), if self.rng.chance(60) { format!(" {{ {} }}", self.select(1)) } else { String::new() }) }
@@ -226,6 +263,71 @@ fn cn_exec(text: &str) -> String {
     }
 }
 
+/// canonical rendering of a parsed query of the kinds the Lean model covers (StamModel/StamqlQ.lean): SELECT queries
+/// without attributes whose constraints are all of the modelled kinds
+fn render_q(q: &Query) -> Option<String> {
+    if q.querytype() != QueryType::Select || q.attributes().next().is_some() { return None; }
+    let ty = match q.resulttype()? { Type::Annotation => "ANNOTATION", Type::AnnotationData => "DATA", Type::DataKey => "KEY", Type::TextSelection => "TEXT", Type::TextResource => "RESOURCE", Type::AnnotationDataSet => "DATASET", _ => return None };
+    let mut cs = vec![];
+    for (c, attrs) in q.constraints_with_attributes() { if !attrs.is_empty() { return None; } cs.push(render_cn(c)?); }
+    let mut subs = vec![];
+    for sq in q.subqueries() { subs.push(render_q(sq)?); }
+    Some(format!("(S {} {} {} [{}] {{{}}})", (q.qualifier() == QueryQualifier::Optional) as u8, ty, q.name().map(|n| hex(n)).unwrap_or_else(|| "~".into()), cs.join("; "), subs.join(" ")))
+}
+
+/// `ql q <hex text> <bad regexes>`: `Query::parse` on the text (structure, remainder), and `to_string` of what it parsed
+fn q_exec(text: &str) -> String {
+    match guarded(std::panic::AssertUnwindSafe(|| Query::parse(text).map(|(q, r)| (render_q(&q), r.to_string(), q.to_string().ok())).map_err(|e| format!("{}", e)))) {
+        Err(m) => format!("panic:{}", m.chars().take(60).collect::<String>()),
+        Ok(Err(_)) => "err".into(),
+        Ok(Ok((None, _, _))) => "unmodelled".into(),
+        Ok(Ok((Some(r), rest, printed))) => format!("ok | {} | {} | {}", r, hex(&rest), match (&printed, r.contains("var ")) { (Some(p), false) => hex(p), _ => "~".into() }),
+    }
+}
+
+/// may the text be sent to the model? (the model takes the verdicts of chrono, str::parse::<f64> and the regex library as
+/// parameters instantiated with simple recognisers; the line is sent only when those agree with the libraries on every token)
+fn model_safe(text: &str) -> Option<String> {
+    let quotes: Vec<usize> = text.char_indices().filter(|(_, c)| *c == '"').map(|(i, _)| i).collect();
+    if quotes.len() > 14 { return None; }
+    for tok in text.split(|c: char| c.is_whitespace() || c == ';' || c == '|' || c == ']' || c == '"') {
+        if tok.is_empty() { continue; }
+        let numeric_shape = tok.chars().enumerate().all(|(i, c)| c.is_ascii_digit() || c == '.' || (c == '-' && i == 0));
+        if numeric_shape && tok.contains('.') {
+            // a float literal: the model keeps the literal, the implementation prints the number
+            match tok.parse::<f64>() { Ok(f) if format!("{:?}", f) == tok => {} Ok(_) => return None, Err(_) => {} }
+        }
+        let b = tok.as_bytes();
+        if b.len() >= 5 && b[..4].iter().all(|c| c.is_ascii_digit()) && b[4] == b'-' && !["2024-03-01T12:30:00+01:00", "2024-01-01T00:00:00+00:00"].contains(&tok) { return None; }
+    }
+    // every piece between two quotes that the regex library refuses
+    let mut bad: Vec<String> = vec![];
+    for (a, i) in quotes.iter().enumerate() { for j in &quotes[a + 1..] { let piece = &text[i + 1..*j]; if regex::Regex::new(piece).is_err() { let h = hex(piece); if !bad.contains(&h) { bad.push(h); } } } }
+    // and every unquoted argument (get_arg ends one at ';', ' ', ']', newline or tab)
+    for tok in text.split(|c: char| c == ';' || c == ' ' || c == ']' || c == '\n' || c == '\t') { if !tok.is_empty() && regex::Regex::new(tok).is_err() { let h = hex(tok); if !bad.contains(&h) { bad.push(h); } } }
+    Some(if bad.is_empty() { "-".into() } else { bad.join(",") })
+}
+
+/// whole queries against the Lean model of the query layer: generated, printed and damaged texts
+pub fn query_model_stream(rep: &mut Report, g: &mut QGen, n: usize) {
+    let mut send = |rep: &mut Report, text: &str, class: &str| {
+        let bad = match model_safe(text) { Some(b) => b, None => { rep.count("q:not-sent"); return; } };
+        let a = q_exec(text);
+        rep.count(&format!("q:{}:{}", class, a.split(' ').next().unwrap_or("?")));
+        let line = format!("ql q {} {}", hex(text), bad);
+        rep.model_case(vec![line], vec![a], "query");
+    };
+    for _ in 0..n {
+        let s0 = g.select_modelled(0);
+        send(rep, &s0, "generated");
+        // what the implementation prints for it (the text the fixpoint is about)
+        if let Ok((q, _)) = Query::parse(&s0) { if let Ok(t) = q.to_string() { send(rep, &t, "printed"); let m = g.mutate(&t); send(rep, &m, "printed-damaged"); } }
+        for _ in 0..2 { let m = g.mutate(&s0); send(rep, &m, "damaged"); }
+        let s1 = g.query();
+        send(rep, &s1, "any");
+    }
+}
+
 pub fn constraint_stream(rep: &mut Report) {
     let ids: [&str; 16] = ["x", "my id", "", "\u{e9}t\u{e9}", "semi;colon", "http://ex.org/ns#p", "?x", "?", "AS", "RECURSIVE", "NONE", "a OR b", "]", "TARGET", "a(b", "tab\there"];
     let quals = [SelectionQualifier::Normal, SelectionQualifier::Metadata];
@@ -281,6 +383,7 @@ pub fn exec_line(line: &str) -> String {
     let t: Vec<&str> = line.split_whitespace().collect();
     match t.as_slice() {
         ["ql", "cn", h, _] => cn_exec(&crate::fam::store::unhex_s(h)),
+        ["ql", "q", h, _] => q_exec(&crate::fam::store::unhex_s(h)),
         ["ql", "arg", ..] | ["ql", "type", ..] | ["ql", "op", ..] => lex_exec(line),
         ["ql", "parse", h] => {
             let s = crate::fam::store::unhex_s(h);
@@ -313,6 +416,7 @@ pub fn run(opts: &Opts) -> Report {
     built_stream(&mut rep);
     lexical_stream(&mut rep, &mut g, if opts.thorough() { 20000 } else { 2000 });
     constraint_stream(&mut rep);
+    query_model_stream(&mut rep, &mut g, if opts.thorough() { 6000 } else { 600 });
     // every truncation of a few long queries (every character boundary)
     for _ in 0..(if opts.thorough() { 200 } else { 30 }) {
         let s0 = g.query();
